@@ -285,6 +285,15 @@ def load_entry(gfapy, op, gfa):
     raise MachineryError("unknown entry " + entry)
 
 
+def _probe(gfapy, gfa, groups):
+    """answers of the given query groups, or None when they are not repeatable (then the
+    comparison across a refused call would not be attributable to that call)"""
+    from . import queries
+    a1 = [x for g in groups for x in queries.run(gfapy, gfa, g)]
+    a2 = [x for g in groups for x in queries.run(gfapy, gfa, g)]
+    return a1 if a1 == a2 else None
+
+
 def replay_one(job):
     """job = dict(id, kind, cfg, ops, universe). Returns trace dict with local pool."""
     gfapy = _load_gfapy()
@@ -302,20 +311,30 @@ def replay_one(job):
     evs = []
     signal.signal(signal.SIGALRM, _alarm)
     answers = {}
+    refused_since = {}
+    probe, probe_ans = job.get("probe"), None
     for op in job["ops"]:
         res = "ok"
         exc = ""
         qsame, qdiff = 1, []
         signal.setitimer(signal.ITIMER_REAL, 5.0)
+        mutating = op["k"] not in ("query", "unused", "validate")
         try:
+            if probe and mutating and probe_ans is None:
+                probe_ans = _probe(gfapy, gfa, probe)
             ng = apply_op(gfapy, gfa, op, ver or (gfa._version))
+            if mutating:
+                probe_ans = None
             if isinstance(ng, tuple) and ng[0] == "unused":
                 op = dict(op, id2=ng[1])
             elif isinstance(ng, tuple):
                 a1, a2 = ng[1], ng[2]
                 prev = answers.get(op["id"])
                 qsame = 1 if (a1 == a2 and (prev is None or prev == a1)) else 0
-                if not qsame:
+                if not qsame and a1 == a2 and refused_since.get(op["id"]):
+                    qsame = 2     # the answers differ across a refused mutation: that call was not a stutter (C08)
+                refused_since[op["id"]] = False
+                if qsame != 1:
                     other = a2 if a1 != a2 else prev
                     qdiff = [x for x, y in zip(a1, other) if x != y][:3] or ["length"]
                 answers[op["id"]] = a1
@@ -333,6 +352,17 @@ def replay_one(job):
         except BaseException as e:  # noqa
             res = project.errclass(e)
             exc = type(e).__name__
+            refused_since = {k: True for k in answers}
+            if probe and mutating and probe_ans is not None and res != "FOREIGN":
+                # a refused call is a stutter for every read-only answer as well (C08)
+                try:
+                    after = _probe(gfapy, gfa, probe)
+                    if after is not None and after != probe_ans:
+                        qsame = 2
+                        qdiff = [x for x, y in zip(after, probe_ans) if x != y][:3] or ["length"]
+                        probe_ans = None
+                except BaseException:  # noqa
+                    probe_ans = None
         finally:
             signal.setitimer(signal.ITIMER_REAL, 0)
         lidx = 0
@@ -587,7 +617,7 @@ def doc_jobs(catname, n, nmut, seed, vlevel=1, kind="doc", cfgversion=None):
 # clause -> property attribution (DESIGN 3.2)
 
 CLAUSE_PROP = {
-    "foreign": "C07", "stutter": "C08", "query-changed": "C10", "query-unrepeatable": "C10",
+    "foreign": "C07", "stutter": "C08", "query-changed": "C10", "query-unrepeatable": "C10", "stutter.query": "C08",
     "res.notunique": "C09", "names": "C09", "lookup": "C09", "fresh": "C09",
     "res.version": "C13", "version": "C13",
     "externals": "C05", "lines": "C05", "res.refused": "C05", "res.accepted": "C05", "hdr": "C05",
